@@ -278,6 +278,43 @@ def _pdd_poly_case(per_node, exp_mode, existing):
     return Case("pdd_poly,per_node=%s,exponent=%s,existing=%s" % (per_node, exp_mode, existing), build, crosscheck=False)
 
 
+def _pdd_poly_two_case():
+    """structure-independent companion of the one-junction proof: two junctions in one call that share the global pressure range and differ in the
+    exponent (the first uses the global one, the second its own): each gets the cubics of ITS curve - nothing fitted for one junction may serve another"""
+    def build(cx):
+        n1, n2 = "J1", "J2"          # (fixed names: every map lookup is decided without the solver)
+        p0g, pfg, eg, e2 = cx.real("pmin_g"), cx.real("preq_g"), cx.real("e_g"), cx.real("e_n2")
+        node1 = mk_node(cx, Junction, n1, _minimum_pressure=None, _required_pressure=None, _pressure_exponent=None)
+        node2 = mk_node(cx, Junction, n2, _minimum_pressure=None, _required_pressure=None, _pressure_exponent=e2)
+        wn = WN(options=options(cx, minimum_pressure=p0g, required_pressure=pfg, pressure_exponent=eg))
+        wn.nodes += [(n1, node1), (n2, node2)]
+        m = cx.obj(ModelStub)
+        cx.interp.call(constants.pdd_constants, [m])
+        upd = Updater()
+        P0, PF = cx.t(p0g), cx.t(pfg)
+        dl = real_val(0.05)
+        cx.assume(PF - P0 > 2 * dl, cx.t(eg) > 0, cx.t(eg) <= 1, cx.t(e2) > 0, cx.t(e2) <= 1, cx.t(e2) != cx.t(eg))
+        cx.hint(P0 == 0, PF == 20, cx.t(eg) == real_val(0.5), cx.t(e2) == real_val(0.9))
+        cx.target(param.pdd_poly_coeffs_param.build, m, wn, upd, [n1, n2])
+
+        def post(out):
+            if not out.returned:
+                return []
+            posts = []
+            w = PF - P0
+            lo, hi = dl / w, (w - dl) / w
+            for tag, n, E in (("first", n1, cx.t(eg)), ("second", n2, cx.t(e2))):
+                def g(k):
+                    return library.as_real(cx.interp.getitem(m.fields[k], n).value)
+                a1, b1, c1, d1 = [g("pdd_poly1_coeffs_" + c) for c in "abcd"]
+                a2, b2, c2, d2 = [g("pdd_poly2_coeffs_" + c) for c in "abcd"]
+                posts += [("%s_junction_poly1_joins_its_own_power_law" % tag, poly(a1, b1, c1, d1, P0 + dl) == library.POW(lo, E)),
+                          ("%s_junction_poly2_joins_its_own_power_law" % tag, poly(a2, b2, c2, d2, PF - dl) == library.POW(hi, E))]
+            return posts
+        cx.ensure(post)
+    return Case("pdd_poly,two_junctions_one_pressure_range_two_exponents", build, crosscheck=False)
+
+
 # ------------------------------------------------------------------------------------------------
 # leak_poly_coeffs_param
 
@@ -326,7 +363,7 @@ CONTRACTS = [
     Contract("wntr.sim.models.param:pnom_param.build", ["C07", "C10"],
              [_pnom_case(pn, ex) for pn in (False, True) for ex in (False, True)], models=MODELS, trusted=TR),
     Contract("wntr.sim.models.param:pdd_poly_coeffs_param.build", ["C07", "C10"],
-             [_pdd_poly_case(pn, em, ex) for pn in (False, True) for em in ("half", "global", "node") for ex in (False, True)],
+             [_pdd_poly_case(pn, em, ex) for pn in (False, True) for em in ("half", "global", "node") for ex in (False, True)] + [_pdd_poly_two_case()],
              models=models_with_spline, trusted=TR),
     Contract("wntr.sim.models.param:leak_poly_coeffs_param.build", ["C08", "C10"],
              [_leak_poly_case(c, ex) for c in (Junction, Tank) for ex in (False, True)], models=models_with_spline, trusted=TR),
